@@ -103,5 +103,17 @@ pub fn handle(line: &str) -> String {
         defs.push(json!({"name": name, "kind": if is_template {"template"} else {"function"}, "ok": ok,
                          "gen": rj(&gen_reports), "passes": rj(&pass_reports), "lookups": rec.lookups}));
     }
-    json!({"parse": rj(&parse_reports), "defs": defs}).to_string()
+    // the main component (since 1121aa8), on a fresh runner: null when no batch is handed to the writer
+    #[allow(unused_mut)]
+    let mut main = Value::Null;
+    #[cfg(has_main_component)]
+    {
+        let (mut runner, _) = AnalysisRunner::new(curve.clone()).with_libraries(&libs).with_files(&inputs);
+        let mut w = crate::analyze::Collect::default();
+        runner.analyze_main_component(&mut w, true);
+        if w.events.iter().any(|e| e["msg"] == "analyzing main component") {
+            main = Value::Array(w.events.iter().filter_map(|e| e.get("report").cloned()).collect());
+        }
+    }
+    json!({"parse": rj(&parse_reports), "defs": defs, "main": main}).to_string()
 }
